@@ -33,8 +33,11 @@ pub(super) struct SubTraceLoreCtorQueue {
 }
 
 impl SubTraceLoreCtorQueue {
-    pub(super) fn current(&mut self) -> &mut LoreCtorDesc {
-        &mut self.queue[self.back_traversal_pos - 1]
+    /// Returns None if there is no iteration to work with: no iteration has been started yet
+    /// or all of them have been already traversed back.
+    pub(super) fn current(&mut self) -> Option<&mut LoreCtorDesc> {
+        let current_pos = self.back_traversal_pos.checked_sub(1)?;
+        self.queue.get_mut(current_pos)
     }
 
     pub(super) fn add_element(
@@ -53,7 +56,7 @@ impl SubTraceLoreCtorQueue {
     }
 
     pub(super) fn traverse_back(&mut self) {
-        self.back_traversal_pos -= 1;
+        self.back_traversal_pos = self.back_traversal_pos.saturating_sub(1);
     }
 
     pub(super) fn start_back_traverse(&mut self) {
